@@ -27,10 +27,24 @@ for f in k["findings"]:
 print()
 print("| seeded change | property | needs | confirmed (demo passes w/o, builds, tests pass, demo fails with) | detected | concrete replay | violation lines |")
 print("|---|---|---|---|---|---|---|")
+harmless = []
 for d in sorted(glob.glob(os.path.join(R, "seeded", "*", "meta.json"))):
     m = json.load(open(d))
+    if m.get("kind") == "harmless":
+        harmless.append((os.path.basename(os.path.dirname(d)), m))
+        continue
     cf = m.get("confirmed_by_us", {})
     ok = all(cf.values()) if cf else False
     oc = m["our_check"]
     print("| %s | %s | %s | %s | %s | %s | %s |" % (os.path.basename(os.path.dirname(d)), m["property"], (m.get("needs_to_manifest") or "")[:160].replace("|", "/").replace("\n", " "),
                                               "yes" if ok else str(cf), oc["detected"], oc["detected_with_concrete_replay"], "; ".join(l.split("replay=")[1].split("/")[-1] for l in oc["violation_lines"])[:200]))
+
+print()
+print("Behaviour-preserving changes (clean-ups by independent sub-agents; no alarm expected):")
+print()
+print("| id | change (summary by its author) | files | checks that stayed OK | alarms |")
+print("|---|---|---|---|---|")
+for name, m in harmless:
+    oc = m["our_checks"]
+    print("| %s | %s | %s | %s | %s |" % (name, (m.get("summary") or "")[:300].replace("|", "/").replace("\n", " "), ", ".join(os.path.basename(f) for f in (m.get("files_changed") or []))[:160],
+                                    " ".join(oc["ok"]), "; ".join(a.replace("|", "/")[:140] for a in oc["alarms"]) or "none"))
